@@ -9,6 +9,22 @@ use log4rs::append::rolling_file::policy::compound::{
 };
 use serde_json::{json, Value};
 
+/// where a relative path lands: "." components and doubled slashes are nothing, ".." steps back (the specification
+/// gives the expanded text; the directory tree holds the file where that text, read as a path, leads)
+fn lands(p: String) -> String {
+    let mut out: Vec<&str> = vec![];
+    for c in p.split('/') {
+        match c {
+            "" | "." => {}
+            ".." => {
+                out.pop();
+            }
+            c => out.push(c),
+        }
+    }
+    out.join("/")
+}
+
 fn only_file(root: &std::path::Path) -> Vec<String> {
     snapshot(root, false, false).keys().cloned().collect()
 }
@@ -25,7 +41,7 @@ fn check_case(case: &Value, idx: usize) -> Option<Value> {
             Ok(Err(e)) => return Some(json!({"site": "FileAppender", "what": "build failed", "error": e.to_string()})),
             Ok(Ok(a)) => {
                 let got = only_file(s.path());
-                let want = vec![format!("p-{}.log", expect)];
+                let want = vec![lands(format!("p-{}.log", expect))];
                 if got != want {
                     return Some(json!({"site": "FileAppender", "what": "file location", "expected": want, "actual": got}));
                 }
@@ -69,7 +85,7 @@ fn check_case(case: &Value, idx: usize) -> Option<Value> {
             Ok(Err(e)) => return Some(json!({"site": "RollingFileAppender", "what": "build failed", "error": e.to_string()})),
             Ok(Ok(_a)) => {
                 let got = only_file(s.path());
-                let want = vec![format!("r-{}.log", expect)];
+                let want = vec![lands(format!("r-{}.log", expect))];
                 if got != want {
                     return Some(json!({"site": "RollingFileAppender", "what": "file location", "expected": want, "actual": got}));
                 }
@@ -86,7 +102,7 @@ fn check_case(case: &Value, idx: usize) -> Option<Value> {
             Ok(Err(e)) => return Some(json!({"site": "file appender from configuration", "what": "build failed", "error": e.to_string()})),
             Ok(Ok(_a)) => {
                 let got = only_file(s.path());
-                let want = vec![format!("c-{}.log", expect)];
+                let want = vec![lands(format!("c-{}.log", expect))];
                 if got != want {
                     return Some(json!({"site": "file appender from configuration", "what": "file location", "expected": want, "actual": got}));
                 }
@@ -104,7 +120,7 @@ fn check_case(case: &Value, idx: usize) -> Option<Value> {
             Ok(Err(e)) => return Some(json!({"site": "FixedWindowRoller", "what": "roll failed", "error": e.to_string()})),
             Ok(Ok(())) => {
                 let got = only_file(s.path());
-                let want = vec![format!("out/a-{}-0.log", expect)];
+                let want = vec![lands(format!("out/a-{}-0.log", expect))];
                 if got != want {
                     return Some(json!({"site": "FixedWindowRoller", "what": "archive location", "expected": want, "actual": got}));
                 }
@@ -130,9 +146,12 @@ fn check_case(case: &Value, idx: usize) -> Option<Value> {
             Ok(Err(e)) => return Some(json!({"site": "FixedWindowRoller (window of 2)", "what": "roll failed", "error": e.to_string()})),
             Ok(Ok(())) => {
                 let got: Vec<(String, String)> = snapshot(s.path(), false, false).into_iter().map(|(k, v)| (k, String::from_utf8_lossy(&v).to_string())).collect();
-                let mut want = vec![(format!("out/b-0-{}.log", expect), "data3".to_string()), (format!("out/b-1-{}.log", expect), "data2".to_string())];
+                let mut want = vec![(lands(format!("out/b-0-{}.log", expect)), "data3".to_string()), (lands(format!("out/b-1-{}.log", expect)), "data2".to_string())];
                 want.sort();
-                if got != want {
+                // (an input that steps back over the component that holds the index - "/../" - gives every index the same
+                // name: not a window)
+                let distinct = want.windows(2).all(|w| w[0].0 != w[1].0);
+                if distinct && got != want {
                     return Some(json!({"site": "FixedWindowRoller (window of 2)", "what": "archives after three rolls", "expected": want, "actual": got}));
                 }
             }
@@ -159,10 +178,11 @@ fn check_case(case: &Value, idx: usize) -> Option<Value> {
             Ok(Err(e)) => return Some(json!({"site": "FixedWindowRoller (index inside the text)", "what": "roll failed", "error": e.to_string()})),
             Ok(Ok(())) => {
                 let got: Vec<(String, String)> = snapshot(s.path(), false, false).into_iter().map(|(k, v)| (k, String::from_utf8_lossy(&v).to_string())).collect();
-                let mut want = vec![(format!("out/c-{}.log", sub(&case["expect0"])), "data4".to_string()), (format!("out/c-{}.log", expect), "data3".to_string()),
-                                    (format!("out/c-{}.log", sub(&case["expect2"])), "data2".to_string())];
+                let mut want = vec![(lands(format!("out/c-{}.log", sub(&case["expect0"]))), "data4".to_string()), (lands(format!("out/c-{}.log", expect)), "data3".to_string()),
+                                    (lands(format!("out/c-{}.log", sub(&case["expect2"]))), "data2".to_string())];
                 want.sort();
-                if got != want {
+                let distinct = want.windows(2).all(|w| w[0].0 != w[1].0);
+                if distinct && got != want {
                     return Some(json!({"site": "FixedWindowRoller (index inside the text)", "what": "archives after four rolls", "pattern": pattern, "expected": want, "actual": got}));
                 }
             }
